@@ -368,7 +368,7 @@ func execC15(spec *RunSpec) *Result {
 	for _, c := range checks {
 		o := c.out
 		h = hashBytes([]byte(fmt.Sprint(h)), o.Out, []byte(o.Err))
-		if o.Panic != "" || o.Overrun {
+		if o.Panic != "" || o.Overrun || o.Deadlock {
 			res.addStat("c11_class_events", 1)
 			noteCrash(res, spec, c.i, c.op, o)
 			continue
